@@ -230,7 +230,8 @@ func (f *funcObject) hasOwnPropertyStr(name unistring.String) bool {
 func (f *funcObject) stringKeys(all bool, accum []Value) []Value {
 	if all {
 		if _, exists := f.values["prototype"]; !exists {
-			accum = append(accum, asciiString("prototype"))
+			// materialise the lazy slot so that it is listed with the other string keys, after any index keys
+			f.addPrototype()
 		}
 	}
 	return f.baseFuncObject.stringKeys(all, accum)
